@@ -10,7 +10,10 @@ import (
 	"strings"
 )
 
-func init() { drivers["sml-enum"] = driverSmlEnum }
+func init() {
+	drivers["sml-enum"] = driverSmlEnum
+	drivers["layout-enum"] = driverLayoutEnum
+}
 
 var smlEnumVocab = []string{
 	"<", ">", ".", "L", "A", "B", "BOOLEAN", "U1", "I2", "F4", "[2]", "[1..2]", "[0]",
@@ -68,5 +71,70 @@ func driverSmlEnum(c *Ctx) {
 			}
 		}
 		rec(nil, 0)
+	}
+}
+
+// layout-enum: the systematic counterpart of the layout driver. For a set of token lists - fixed ones that hold every
+// kind of adjacent token pair, and -n seeded ones - every single gap in turn gets every separator (the other gaps
+// keep one blank), and every token in turn gets its letter case flipped where SML is case-insensitive.
+var layoutEnumBases = [][]string{
+	{"S1F1", "W", "H->E", "n1", "<", "L", "[", "2", "]", "<", "U1", "[", "1", "..", "2", "]", "5", "0x1F", ">", "<", "A", "[", "0", "..", "5", "]", `"ab"`, "0x41", ">", ">", "."},
+	{"S2F3", "H<-E", "<", "L", "x", "<", "B", "0b1", "7", ">", "...", "<", "BOOLEAN", "T", "false", ">", "y[1]", ">", ".", "S6F11", "[W]", "<", "F4", "1.5", "-1e3", "v", ">", "."},
+	{"S1F1", "<", "I2", "[", "3", "]", "-1", "2", "k", ">", ".", "S2F2", "W", "E->H", "<", "U1", "300", ">", "."},
+	{"S1F1", "W", "<", "L", "...", ">", ".", "S1F3", "<", "A", "[", "1", "]", `"abc"`, ">", "."},
+	{"S127F255", "W", "H<->E", "<", "L", "<", "L", "<", "L", ">", ">", "<", "F8", "1e400", ">", ">", "S1F2", "<", "BOOLEAN", "[", "..", "1", "]", "T", "T", ">", "."},
+	{"S1F1", "W", "<", "A", "[", "1", "..", "]", "str", ">", ".", "S1F1", "<", "U2", "a", "...", ">", "."},
+}
+var layoutEnumSeps = []string{"", "  ", "\t", "\n", "\r\n", "\r", " \n\t ", " //c\n", "//c\r\n", " // é <L \"\n", "\n\n// . S9F9\n", "\v", " "}
+
+func driverLayoutEnum(c *Ctx) {
+	bases := append([][]string{}, layoutEnumBases...)
+	for k := 0; k < c.N; k++ {
+		bases = append(bases, c.gen(k).lexemes())
+	}
+	idx := -1
+	one := func(t1, t2, family string) {
+		idx++
+		if c.want(idx) {
+			c.emit(idx, J{"ev": "layout", "family": family, "r1": parseEvent(t1), "r2": parseEvent(t2)})
+			c.count("layoutenum." + family)
+		}
+	}
+	for _, toks := range bases {
+		t1 := strings.Join(toks, " ")
+		for gap := 0; gap <= len(toks); gap++ {
+			for _, sep := range layoutEnumSeps {
+				var sb strings.Builder
+				for i, t := range toks {
+					if i == gap {
+						sb.WriteString(sep)
+					} else if i > 0 {
+						sb.WriteString(" ")
+					}
+					sb.WriteString(t)
+				}
+				if gap == len(toks) {
+					sb.WriteString(sep)
+				}
+				one(t1, sb.String(), "single-gap")
+			}
+		}
+		inHeader := true
+		for i, t := range toks {
+			if caseFlippable(t, inHeader) {
+				for _, f := range []string{strings.ToUpper(t), strings.ToLower(t)} {
+					if f != t {
+						t2 := strings.Join(append(append(append([]string{}, toks[:i]...), f), toks[i+1:]...), " ")
+						one(t1, t2, "single-case")
+					}
+				}
+			}
+			if t == "<" {
+				inHeader = false
+			}
+			if t == "." {
+				inHeader = true
+			}
+		}
 	}
 }
